@@ -2,7 +2,9 @@
 (* C44.  AuthStrategy.authenticate (paramiko/auth_strategy.py:260-303).            *)
 (*                                                                                *)
 (* A *program* is the list of sources get_sources() produces; source k either     *)
-(* returns ("ok") or raises an exception of some kind.  The state machine follows *)
+(* returns some value (an outcome kind in Returns: an empty list, a non-empty list, *)
+(* None, a string, ... - a source has succeeded when its authenticate() returns,   *)
+(* whatever it returns) or raises an exception of some kind.  The machine follows   *)
 (* the loop of authenticate() at the grain of its decision points:                *)
 (*   NextSource  - the generator produces the next source (or is exhausted)       *)
 (*   Attempt     - source.authenticate(transport) runs: returns or raises         *)
@@ -12,11 +14,13 @@
 (* trace spec evaluates exactly the same definitions on recorded behaviour.       *)
 EXTENDS Naturals, Sequences, FiniteSets, TLC
 
-CONSTANTS Outcomes,    \* outcome kinds of a source: "ok" or the name of an exception class
+CONSTANTS Outcomes,    \* outcome kinds of a source: a kind of returned value or the name of an exception class
+          Returns,     \* the outcome kinds that are returned values ("ok" = [], "ok_list" = a non-empty list, "ok_none", ...)
           MaxLen,      \* longest program explored by the model checker
           Mutation     \* "none" = the design; other values re-introduce a defect (sensitivity runs)
 
-ASSUME "ok" \in Outcomes
+ASSUME Returns \subseteq Outcomes /\ Returns # {}
+Succeeds(o) == o \in Returns      \* success = returns without raising; the value plays no role
 
 VARIABLES prog,        \* Seq(Outcomes): source k behaves as prog[k]
           pc,          \* "next" | "attempt" | "record" | "finish" | "done"
@@ -34,10 +38,10 @@ Programs == UNION {[1..n -> Outcomes] : n \in 0..MaxLen}
 (* kind = "ret" (the object that source's authenticate returned), "exc" (the      *)
 (*        exception instance a source raised) or "other"                          *)
 (* of   = index of the source that returned / raised that very object (0: none)   *)
-Entry(p, k) == [src |-> k, kind |-> IF p[k] = "ok" THEN "ret" ELSE "exc", of |-> k]
+Entry(p, k) == [src |-> k, kind |-> IF Succeeds(p[k]) THEN "ret" ELSE "exc", of |-> k]
 
 Min(S) == CHOOSE x \in S : \A y \in S : x <= y
-FirstOk(p) == IF \E k \in 1..Len(p) : p[k] = "ok" THEN Min({k \in 1..Len(p) : p[k] = "ok"}) ELSE 0
+FirstOk(p) == IF \E k \in 1..Len(p) : Succeeds(p[k]) THEN Min({k \in 1..Len(p) : Succeeds(p[k])}) ELSE 0
 \* number of sources the statement wants tried
 Wanted(p) == IF FirstOk(p) = 0 THEN Len(p) ELSE FirstOk(p)
 
@@ -45,7 +49,7 @@ Wanted(p) == IF FirstOk(p) = 0 THEN Len(p) ELSE FirstOk(p)
 \* a call of source s when `cs` were called before
 CallClauses(p, cs, s) ==
      (IF s = Len(cs) + 1 THEN {} ELSE {"P_order"})
-\cup (IF \E k \in 1..Len(cs) : cs[k] \in 1..Len(p) /\ p[cs[k]] = "ok" THEN {"P_call_after_success"} ELSE {})
+\cup (IF \E k \in 1..Len(cs) : cs[k] \in 1..Len(p) /\ Succeeds(p[cs[k]]) THEN {"P_call_after_success"} ELSE {})
 
 \* the end of authenticate(): st = how it ended, res = the AuthResult returned / carried by AuthFailure
 FinalClauses(p, cs, st, res) ==
@@ -77,13 +81,14 @@ NextSource == /\ pc = "next"
 Attempt == /\ pc = "attempt"
            /\ LET k == IF Mutation = "reversed" THEN Len(prog) + 1 - i ELSE i IN
                 /\ calls' = Append(calls, k)
-                /\ succeeded' = (prog[k] = "ok")
+                /\ succeeded' = IF Mutation = "nonempty_list_not_success" THEN Succeeds(prog[k]) /\ prog[k] # "ok_list"
+                                ELSE Succeeds(prog[k])
            /\ pc' = "record"
            /\ UNCHANGED <<prog, i, result, status>>
 
 Record == /\ pc = "record"
           /\ LET k == calls[Len(calls)] IN
-               result' = IF Mutation = "drop_failures" /\ prog[k] # "ok" THEN result
+               result' = IF Mutation = "drop_failures" /\ ~Succeeds(prog[k]) THEN result
                          ELSE Append(result, Entry(prog, k))
           /\ pc' = IF succeeded /\ Mutation # "no_break" THEN "finish" ELSE "next"
           /\ UNCHANGED <<prog, i, succeeded, calls, status>>
